@@ -774,7 +774,7 @@ func genSetBoundaryC11(op string, vals []string) (cases []string) {
 }
 
 func genC11(rng *rand.Rand, tier string) (cases []string) {
-	n := 3000
+	n := 8000
 	if tier == "thorough" {
 		n = 500000
 	}
